@@ -216,15 +216,24 @@ def run(ctx):
             raise MachineryError('duplicate generated case %s' % key[:200])
         seen.add(key)
         ctx.evaluations += 1
-        if _compare(ctx, case, backends, cbin_variants):
-            ctx.nontrivial += 1
+        with ctx.guard(case['mode'], case):
+            if _compare(ctx, case, backends, cbin_variants):
+                ctx.nontrivial += 1
+        if ctx.abort:
+            break
         if ctx.evaluations % 997 == 1:
             ctx.sample(case)
     path.unlink()
+    if ctx.abort:
+        return
     if ctx.evaluations != n or n == 0:
         raise MachineryError('replayed %d of %d generated cases' % (ctx.evaluations, n))
     # C->S
-    recs = _random_records(ctx, 120 if ctx.quick else 1200)
+    recs = []
+    with ctx.guard('random', None, seconds=300):
+        recs = _random_records(ctx, 120 if ctx.quick else 1200)
+    if not recs:
+        return
     for k in range(0, len(recs), 400):
         for rid, clause in ctx.validate('Trace_Chunking', 'Trace_Chunking.cfg', recs[k:k + 400],
                                         note='random runs beyond the exhaustive bounds',
